@@ -40,6 +40,8 @@
    and two variants of the repaired implementation (seeded defects):
      "namesniff"  a packet is taken for a call iff it contains the text "name": - an answer whose
                   result is an object with a key called name is dropped
+     "truthyonly" the sender stores an answer only if its value is truthy: a result 0, 0.0, false,
+                  "", [] or {} resumes the waiting handler with no value
      "bracecount" the undelimited tail counts as complete when its braces balance: a payload string
                   with an unbalanced "}" and a read ending right behind it is consumed and lost
    A deviation is a generator of histories, never an oracle.                *)
@@ -51,7 +53,8 @@ CONSTANTS Sizes,          \* subset of {"s", "b"}: call payload sizes
                           \*  brace: strings with JSON structural characters, one "}" not balanced before it)
           FwKinds,        \* subset of {"ok", "sblk", "rblk"}: what the firewall predicates say about the event
           FwConfigs,      \* subset of {"--", "S-", "-R", "SR"}: which firewalls are installed
-          Values,         \* subset of 1..4: result value ids (1 small, 2 larger than 4 KiB, 3 wirekey object, 4 brace string)
+          Values,         \* subset of 1..6: result value ids (1 small, 2 larger than 4 KiB, 3 wirekey object, 4 brace string,
+                          \* 6 a falsy value other than None: 0, 0.0, false, "", [], {})
           ErrReplies,     \* BOOLEAN: a callee handler may raise
           NoResult,       \* subset of BOOLEAN: TRUE = sends nobody waits for (node_without_result)
           HostileClasses, \* subset of {"trunc","types","missing","oversize","delim","chanlist","vforge"}
@@ -277,7 +280,8 @@ Deliver ==
   /\ LET id == Item.pk.id IN
      IF id \in 1..Len(evs) /\ evs[id].waiting
      THEN /\ evs' = [evs EXCEPT ![id].waiting = FALSE]
-          /\ Emit(<<Line("deliver", id, Item.pk.v, IF Item.pk.err THEN 1 ELSE 0, 0, "")>>)
+          /\ Emit(<<Line("deliver", id, IF "truthyonly" \in Dev /\ Item.pk.v = 6 THEN 0 ELSE Item.pk.v,
+                          IF Item.pk.err THEN 1 ELSE 0, 0, "")>>)
      ELSE /\ Emit(<<>>) /\ UNCHANGED evs
   /\ pend' = Tail(pend)
   /\ UNCHANGED <<fw, chan, rpos, bstart, ncuts, nhost, alive, hist>>
